@@ -74,7 +74,7 @@ fn cmd_io(m: &HashMap<String, String>) -> i32 {
     let property = m.get("property").cloned().unwrap_or_else(|| "C19".to_string());
     let known: Vec<String> = m.get("known").map(|k| k.split(';').filter(|x| !x.is_empty()).map(|x| x.to_string()).collect()).unwrap_or_default();
     let t0 = Instant::now();
-    // --shard s --of n: this process runs, sequentially, the chunks c with c % n == s (DESIGN 3.1.6)
+    // --shard s --of n: this process runs, sequentially, the chunks c with c % n == s (DESIGN 3.1.4)
     let shard: Option<(usize, usize)> = if m.contains_key("shard") { Some((geti(m, "shard", 0) as usize, (geti(m, "of", 1) as usize).max(1))) } else { None };
     let hashes_out = m.get("hashes-out").cloned();
     let mut hash_dump: Vec<(Vec<u64>, Vec<u64>)> = vec![];
